@@ -150,7 +150,83 @@ def fresh(name):
 _REF = {}
 
 
+SPL_YAML = """library: spl
+cxx_header: spl.hpp
+splicer:
+  c:
+  - csplicer.c
+  f:
+  - fsplicer.f
+declarations:
+- decl: void foo(int a)
+- decl: void bar(const char *s)
+"""
+
+
+def _spl_file(lead, text):
+    return "%s splicer begin function.foo\n%s %s\n%s splicer end function.foo\n" % (lead, lead, text, lead)
+
+
+def check_env(inp):
+    """the same absolute command line gives the same bytes from any working directory (one of them holding decoy files
+    named like the files the YAML refers to) and under any PYTHONHASHSEED (two --path directories both hold the files:
+    the first one named wins)"""
+    base = tempfile.mkdtemp(prefix="mpur_")
+    try:
+        dirs = {}
+        for d_, text in (("first", "FROM FIRST"), ("second", "FROM SECOND"), ("decoy", "FROM DECOY"), ("neutral", None)):
+            p_ = os.path.join(base, d_)
+            os.makedirs(p_)
+            dirs[d_] = p_
+            if text:
+                open(os.path.join(p_, "csplicer.c"), "w").write(_spl_file("//", text))
+                open(os.path.join(p_, "fsplicer.f"), "w").write(_spl_file("!", text))
+        yml = os.path.join(base, "spl.yaml")
+        open(yml, "w").write(SPL_YAML)
+        code = """
+import sys, json, os, hashlib, contextlib, io
+sys.path.insert(0, %r)
+from shroud import main as M
+out = sys.argv[1]
+sys.argv = ['shroud', '--outdir', out, '--logdir', out, '--path', %r, '--path', %r, %r]
+try:
+    with contextlib.redirect_stdout(io.StringIO()):
+        M.main()
+except SystemExit as e:
+    if e.code not in (0, None):
+        raise
+print(json.dumps(dict((n, hashlib.sha256(open(os.path.join(out, n), 'rb').read()).hexdigest()[:16])
+                      for n in sorted(os.listdir(out)) if n.endswith(('.c', '.cpp', '.h', '.f')))))
+""" % (os.environ.get("VERIF_REPO", "/repo"), dirs["first"], dirs["second"], yml)
+        results = {}
+        runs = [("neutral", "0"), ("decoy", "0")] + [("neutral", s_) for s_ in ("1", "2", "3", "4", "5")]
+        for k, (cwd, seed) in enumerate(runs):
+            out = os.path.join(base, "out%d" % k)
+            os.makedirs(out)
+            env = dict(os.environ, PYTHONHASHSEED=seed)
+            p = subprocess.run([sys.executable, "-c", code, out], cwd=dirs[cwd], env=env, capture_output=True, text=True, timeout=300)
+            if p.returncode != 0:
+                return None if k == 0 else "the run from working directory %r (PYTHONHASHSEED=%s) fails while the reference run succeeds: %s" % (
+                    cwd, seed, p.stderr[-200:])
+            results[(cwd, seed)] = json.loads(p.stdout.strip().split("\n")[-1])
+            text = open(os.path.join(out, "wrapspl.cpp")).read() if os.path.exists(os.path.join(out, "wrapspl.cpp")) else ""
+            if k == 0 and "FROM FIRST" not in text:
+                return None       # the reference run itself does not pick the first --path directory: no verdict here
+        ref = results[("neutral", "0")]
+        for (cwd, seed), r in results.items():
+            if r != ref:
+                diff = sorted(n for n in set(r) | set(ref) if r.get(n) != ref.get(n))
+                return ("the same absolute command line gives different files %s when run from a directory that holds files named like "
+                        "the YAML's splicer files" % diff) if cwd == "decoy" else (
+                    "the same command line gives different files %s under PYTHONHASHSEED=%s" % (diff, seed))
+        return None
+    finally:
+        shutil.rmtree(base, ignore_errors=True)
+
+
 def check(inp):
+    if inp.get("kind") == "env":
+        return check_env(inp)
     seq = inp["seq"]
     for n in set(seq):
         if n not in _REF:
@@ -165,6 +241,7 @@ def check(inp):
 
 
 def candidates(seed, around=None):
+    yield {"kind": "env"}
     names = sorted(LIBS)
     for a, b in itertools.permutations(names, 2):
         yield {"seq": [a, b]}
